@@ -769,8 +769,10 @@ def c09(sc, V):
             if l[0] == "ev" and l[2] == "reap":
                 if l[3] in reap_ev:
                     f.append({"sig": "two-reap-events", "step": s.n, "msg": "pid %d reaped twice" % l[3]})
-                if l[3] not in spawn_ev and not _after_spawn_failed(V, s.n, l[3]):
-                    f.append({"sig": "reap-without-spawn", "step": s.n, "msg": "pid %d" % l[3]})
+                if l[3] not in spawn_ev:
+                    # F29: a worker rejected by after_spawn is never announced, yet reaped with an event
+                    f.append({"sig": "reap-without-spawn@after_spawn-rejected" if _after_spawn_failed(V, s.n, l[3])
+                              else "reap-without-spawn", "step": s.n, "msg": "pid %d got a reap event but never a spawn event" % l[3]})
                 reap_ev[l[3]] = l[4]
                 if l[3] in pending_exit and l[4] not in ("None",):
                     w = next((w for w in s.before.watchers if res_name(w["name"]) == l[1]), None)
